@@ -51,6 +51,8 @@ type C15Plan struct {
 	Spelling  string     `json:"spelling,omitempty"` // dot | dotdot | abs | plain
 	Umask     int        `json:"umask,omitempty"`
 	NKeys     int        `json:"nkeys,omitempty"` // keygen-y: identities in the input
+	RaceAt    string     `json:"race_at,omitempty"`   // keygen-race: open | mid  (when the competing creator acts)
+	RaceKind  string     `json:"race_kind,omitempty"` // keygen-race: file | symlink | hardlink
 }
 
 type C15 struct{}
@@ -68,12 +70,12 @@ func (C15) Runs(tier string) int {
 func (C15) Meta() core.Meta {
 	return core.Meta{
 		Level: "fault_enumeration",
-		Rule: "a case = one process run of the real binary: operation (encrypt with -r/-R/-e -i, decrypt with -i incl. several identity files, keygen, keygen -y), key types (X25519, ssh-ed25519, ssh-rsa), armor, input size 0..3 chunks from file or pre-filled pipe, output to -o file / pipe / redirected file, damaged input (header flip, payload flip, truncation, truncation exactly at a chunk boundary), pre-existing output, -o naming the input / an identity file / a recipients file under ./x, d/../x, absolute, and non-canonical absolute (/./, /d/../, //) spellings, and one output fault: RLIMIT_FSIZE=n (sweep runs: every n in 0..len(output)), missing parent directory, target is a directory, /dev/full, stdout pipe closed before start. Oracle: exit 0 => destination holds the complete result (decrypt: == P; encrypt: reference model decrypts it to the input; keygen: parseable key file, mode 0600; keygen -y: all recipient lines); no fault and valid input => exit 0; header-level refusal => -o neither created nor modified; payload failure => output is a prefix of P; same-file => refused, files intact; keygen -o existing => refused, intact. Non-trivial = a fault, damage, pre-existing or same-file condition is present; distinct = distinct plans.",
+		Rule: "a case = one process run of the real binary: operation (encrypt with -r/-R/-e -i, decrypt with -i incl. several identity files, keygen, keygen -y), key types (X25519, ssh-ed25519, ssh-rsa), armor, input size 0..3 chunks from file or pre-filled pipe, output to -o file / pipe / redirected file, damaged input (header flip, payload flip, truncation, truncation exactly at a chunk boundary), pre-existing output, -o naming the input / an identity file / a recipients file under ./x, d/../x, absolute, and non-canonical absolute (/./, /d/../, //) spellings, and one output fault: RLIMIT_FSIZE=n (sweep runs: every n in 0..len(output)), missing parent directory, target is a directory, /dev/full, stdout pipe closed before start; or (keygen-race) a second actor that creates the -o name (regular file, symbolic link or hard link, exclusively) at the moment age-keygen -y opens its FIFO input or after half of the input. Oracle: a name another party managed to create is never replaced or written through, and then the status is non-zero; exit 0 => destination holds the complete result (decrypt: == P; encrypt: reference model decrypts it to the input; keygen: parseable key file, mode 0600; keygen -y: all recipient lines); no fault and valid input => exit 0; header-level refusal => -o neither created nor modified; payload failure => output is a prefix of P; same-file => refused, files intact; keygen -o existing => refused, intact. Non-trivial = a fault, damage, pre-existing or same-file condition is present; distinct = distinct plans.",
 		Assumptions: []string{"kernel, file system and process scheduling are real and not controlled; nothing in the oracle depends on timing (pipes are pre-filled or closed before start)", "passphrase (-p / scrypt) flows need a terminal and are not exercised here", "runs as root: permission-denied destinations are not generated", "a death by signal (SIGXFSZ, SIGPIPE) counts as a non-zero status"},
 		Real:        []string{"cmd/age and cmd/age-keygen binaries built from the working tree", "Linux kernel: files, pipes, RLIMIT_FSIZE, /dev/full"},
 		Stub:        []string{"argv, environment, input files, identity/recipient files, file descriptors and limits (the plan)"},
-		FaultKinds:  []string{"fault.fsize", "fault.nodir", "fault.isdir", "fault.devfull", "fault.closedpipe", "fault.damage_header", "fault.damage_payload", "fault.damage_trunc", "fault.damage_trunc_chunk", "fault.no_matching_identity"},
-		Probes:      []string{"probe.exit0_complete", "probe.exit_nonzero", "probe.killed_by_signal", "probe.same_file_refused", "probe.pre_existing_output", "probe.keygen_mode_checked", "probe.empty_plaintext", "probe.multi_chunk", "probe.fsize_limit_below_output", "probe.fsize_limit_at_or_above_output", "probe.header_refusal_output_untouched", "probe.partial_output_is_prefix", "probe.stdin_input", "probe.several_identity_files", "probe.dash_names", "probe.pre_existing_symlink"},
+		FaultKinds:  []string{"fault.fsize", "fault.nodir", "fault.isdir", "fault.devfull", "fault.closedpipe", "fault.damage_header", "fault.damage_payload", "fault.damage_trunc", "fault.damage_trunc_chunk", "fault.no_matching_identity", "fault.competing_creator"},
+		Probes:      []string{"probe.exit0_complete", "probe.exit_nonzero", "probe.killed_by_signal", "probe.same_file_refused", "probe.pre_existing_output", "probe.keygen_mode_checked", "probe.empty_plaintext", "probe.multi_chunk", "probe.fsize_limit_below_output", "probe.fsize_limit_at_or_above_output", "probe.header_refusal_output_untouched", "probe.partial_output_is_prefix", "probe.stdin_input", "probe.several_identity_files", "probe.dash_names", "probe.pre_existing_symlink", "probe.race_competitor_refused", "probe.race_competitor_created"},
 	}
 }
 
@@ -103,6 +105,12 @@ func (C15) Generate(r *core.RNG, tier string, idx uint64) interface{} {
 		p.Op = "keygen"
 	default:
 		p.Op = "keygen-y"
+		if r.Chance(1, 3) {
+			// a second actor creates the -o name while age-keygen -y is waiting for its input
+			p.Op = "keygen-race"
+			p.RaceAt = []string{"open", "mid"}[r.Intn(2)]
+			p.RaceKind = []string{"file", "file", "symlink", "hardlink"}[r.Intn(4)]
+		}
 	}
 	p.PLen = r.Pick(0, 0, 1, 5, 100, 100, 4096, 65536, 65537, 140000)
 	p.Armor = r.Chance(1, 3)
@@ -161,7 +169,10 @@ func (C15) Generate(r *core.RNG, tier string, idx uint64) interface{} {
 		p.PreLink = r.Chance(1, 3)
 		p.OutVia = "file"
 	}
-	if idx%12 == 5 && (p.Fault.Kind == "" || p.Fault.Kind == "fsize") && p.SameAs == "" {
+	if p.Op == "keygen-race" {
+		p.Fault, p.SameAs, p.PreExist, p.PreLink = OutFault{}, "", false, false
+	}
+	if idx%12 == 5 && (p.Fault.Kind == "" || p.Fault.Kind == "fsize") && p.SameAs == "" && p.Op != "keygen-race" {
 		// exhaustive: every byte offset at which a size-limited output can fail
 		p.Sweep = true
 		p.Fault = OutFault{Kind: "fsize"}
@@ -342,6 +353,9 @@ func (e C15) Execute(plan interface{}, c *core.Ctx) *core.Verdict {
 	ageBin, kgBin := os.Getenv("AGE_BIN"), os.Getenv("KEYGEN_BIN")
 	if ageBin == "" || kgBin == "" {
 		return core.Fail("harness", "AGE_BIN / KEYGEN_BIN not set (use ./check C15 ...)")
+	}
+	if p.Op == "keygen-race" {
+		return e.race(p, c, kgBin)
 	}
 	if !p.Sweep {
 		return e.one(p, p.Fault, c, ageBin, kgBin, nil, -1)
@@ -859,6 +873,147 @@ func (e C15) one(p *C15Plan, fault OutFault, c *core.Ctx, ageBin, kgBin string, 
 	// any decrypt output, complete or not, is a prefix of P
 	if p.Op == "decrypt" && gotKnown && destExists && !p.PreExist && !lib.IsPrefix(got, P) {
 		return core.Fail("C15.partial_not_prefix", "decrypt output (%d bytes) is not a prefix of the true plaintext: %s", len(got), desc)
+	}
+	return nil
+}
+
+// race: age-keygen -y -o OUT FIFO with a second actor. Opening the FIFO is a rendezvous: when the harness's
+// open-for-writing succeeds, age-keygen has reached the open of its input. At that moment (or after half the
+// input) the competitor tries to create OUT exclusively. Whatever the order in which age-keygen does things, if the
+// competitor's creation succeeded the name existed from then on and must never be overwritten.
+func (e C15) race(p *C15Plan, c *core.Ctx, kgBin string) *core.Verdict {
+	dir, err := os.MkdirTemp("", "c15r-")
+	if err != nil {
+		return core.Fail("harness", "%v", err)
+	}
+	defer os.RemoveAll(dir)
+	os.Mkdir(filepath.Join(dir, "d"), 0o755)
+	fifo := filepath.Join(dir, "in.fifo")
+	if err := syscall.Mkfifo(fifo, 0o600); err != nil {
+		return core.Fail("harness", "mkfifo: %v", err)
+	}
+	outPath := filepath.Join(dir, "out.txt")
+	pre := []byte("THE OTHER PARTY'S FILE\n")
+	existing := filepath.Join(dir, "d", "existing-target")
+	os.WriteFile(existing, pre, 0o644)
+	var in, want strings.Builder
+	for i := 0; i < p.NKeys; i++ {
+		sk := world.X25519Secret(i)
+		in.WriteString("# comment\n" + strings.ToUpper(ref.Bech32Encode("AGE-SECRET-KEY-", sk)) + "\n")
+		want.WriteString(ref.Bech32Encode("age", ref.X25519Public(sk)) + "\n")
+	}
+	input := []byte(in.String())
+	args := []string{kgBin, "-y", "-o", outPath, fifo}
+	if p.Umask != 0 {
+		args = []string{"sh", "-c", fmt.Sprintf("umask %o; exec '%s' -y -o '%s' '%s'", p.Umask, kgBin, outPath, fifo)}
+	}
+	cmd := exec.Command(args[0], args[1:]...)
+	cmd.Dir = dir
+	cmd.Env = []string{"PATH=/usr/bin:/bin", "HOME=" + dir, "TZ=UTC", "LANG=C"}
+	var errBuf bytes.Buffer
+	cmd.Stderr = &errBuf
+	if err := cmd.Start(); err != nil {
+		return core.Fail("harness", "start: %v", err)
+	}
+	done := make(chan error, 1)
+	go func() { done <- cmd.Wait() }()
+	exited := false
+	fd := -1
+	start := time.Now()
+	for fd < 0 && !exited {
+		f, err := syscall.Open(fifo, syscall.O_WRONLY|syscall.O_NONBLOCK, 0)
+		switch {
+		case err == nil:
+			fd = f
+		case err == syscall.ENXIO || err == syscall.EINTR:
+			select {
+			case <-done:
+				exited = true
+			case <-time.After(time.Millisecond):
+			}
+			if time.Since(start) > 60*time.Second {
+				cmd.Process.Kill()
+				<-done
+				return core.Fail("C15.hang", "age-keygen -y -o OUT FIFO never opened its input")
+			}
+		default:
+			cmd.Process.Kill()
+			<-done
+			return core.Fail("harness", "open fifo: %v", err)
+		}
+	}
+	created := false
+	var createdIno uint64
+	compete := func() {
+		var err error
+		switch p.RaceKind {
+		case "symlink":
+			err = os.Symlink(existing, outPath)
+		case "hardlink":
+			err = os.Link(existing, outPath)
+		default:
+			var f *os.File
+			f, err = os.OpenFile(outPath, os.O_WRONLY|os.O_CREATE|os.O_EXCL, 0o644)
+			if err == nil {
+				f.Write(pre)
+				f.Close()
+			}
+		}
+		if err == nil {
+			created = true
+			createdIno, _, _ = fileID(outPath)
+		}
+	}
+	if fd >= 0 {
+		syscall.SetNonblock(fd, false)
+		half := 0
+		if p.RaceAt == "mid" {
+			half = len(input) / 2
+			syscall.Write(fd, input[:half])
+		}
+		compete()
+		syscall.Write(fd, input[half:])
+		syscall.Close(fd)
+		select {
+		case <-done:
+		case <-time.After(60 * time.Second):
+			cmd.Process.Kill()
+			<-done
+			return core.Fail("C15.hang", "age-keygen -y did not finish within 60 s after its input ended")
+		}
+	}
+	exit := cmd.ProcessState.ExitCode()
+	c.Stats.Eval(fmt.Sprintf("%+v", *p), true)
+	c.Stats.Inc("fault.competing_creator")
+	stderr := strings.ReplaceAll(errBuf.String(), dir, "$D")
+	c.Log.Add("keygen-race at=%s kind=%s keys=%d -> competitor created=%v exit=%d stderr=%q", p.RaceAt, p.RaceKind, p.NKeys, created, exit, clipS(strings.SplitN(stderr, "\n", 2)[0]))
+	if fd < 0 {
+		return core.Fail("C15.spurious_failure", "age-keygen -y -o OUT INPUT exited (status %d) before opening its input; stderr %q", exit, clipS(stderr))
+	}
+	got, rerr := os.ReadFile(outPath)
+	if created {
+		c.Stats.Inc("probe.race_competitor_created")
+		ino, _, _ := fileID(outPath)
+		if rerr != nil || !bytes.Equal(got, pre) || ino != createdIno {
+			return core.Fail("C15.keygen_overwrote", "another party created the -o name (%s, when age-keygen %s) and age-keygen -y replaced or modified it afterwards (exit %d): it now holds %q", p.RaceKind, map[string]string{"open": "opened its input", "mid": "had half of its input"}[p.RaceAt], exit, clipS(string(got)))
+		}
+		if b, _ := os.ReadFile(existing); !bytes.Equal(b, pre) {
+			return core.Fail("C15.keygen_overwrote", "age-keygen -y wrote through a link another party created at the -o name")
+		}
+		if exit == 0 {
+			return core.Fail("C15.exit0_incomplete", "exit status 0 but the -o name holds another party's file, not the result")
+		}
+		return nil
+	}
+	c.Stats.Inc("probe.race_competitor_refused")
+	if b, _ := os.ReadFile(existing); !bytes.Equal(b, pre) {
+		return core.Fail("harness", "the unrelated existing file changed")
+	}
+	if exit != 0 {
+		return core.Fail("C15.spurious_failure", "no fault, valid input (the competing creation was refused), yet exit status %d; stderr %q", exit, clipS(stderr))
+	}
+	if rerr != nil || string(got) != want.String() {
+		return core.Fail("C15.exit0_incomplete", "exit status 0 but the output holds %q, the complete result is %q", clipS(string(got)), clipS(want.String()))
 	}
 	return nil
 }
